@@ -66,7 +66,9 @@ def check_mode(b, case, ctx, plain, mode):
     except dotparse.DotError as e:
         ctx.fail('dot-syntax', q(), f'body not parseable: {e}: {dot.body!r}')
     nodes = [w for kind, w, a in stmts if kind == 'node']
-    ctx.check(all(not a for kind, w, a in stmts if kind == 'node'), 'node-attrs', q, 'node statement with attributes')
+    # a node statement may carry cosmetic attributes; label / direction / visibility attributes would change what is drawn
+    ctx.check(all(not any(key in dotparse.ORACLE_KEYS for key in a) for kind, w, a in stmts if kind == 'node'),
+              'node-attrs', q, 'node statement with label / style attributes')
     ctx.check(sorted(nodes) == sorted(f'c{i}' for i in range(k)), 'nodes', q,
               lambda: f'node statements {nodes}, want one per concept c0..c{k - 1}')
     plain_edges = collections.Counter(w for kind, w, a in stmts if kind == 'edge' and not a)
